@@ -15,9 +15,9 @@ CLAIMED = {
     ),
     "C16": dict(
         engine="A",
-        technique="deterministic simulation: both training loops driven by a scripted loss sequence (incl. +-inf, NaN, ties, degenerate knobs) and a counting optimiser; refinement check of the recorded history against an executable reference model of stop/selection; seeded search with shrinking and exact replay",
+        technique="deterministic simulation: both training loops driven by a scripted loss sequence (incl. +-inf, NaN, ties, near-ties, degenerate knobs) and a counting optimiser; refinement check of the recorded history against an executable reference model of stop/selection; seeded search with shrinking and exact replay",
         text="Seeded exploration of the stop/selection behaviour of both loops: the returned parameters carry the number of gradient steps they came from, so 'which parameters were returned' is an integer compared with a 30-line reference model over the recorded losses. Strict oracle for distinct finite/+-inf losses; narrowly relaxed (and separately counted) for ties and NaN where the statement is silent.",
-        note="Trusted: ordered callbacks, the reference model (sim/refmodel.py), the counting optimiser. Sampling of orderings (L<=7 mostly, up to 20), not exhaustive enumeration.",
+        note="Trusted: ordered callbacks, the reference model (sim/refmodel.py), the counting optimiser. Seeded sampling of orderings (L<=7 mostly, up to 20); the thorough tier additionally starts with a systematic block of every ordering for L<=5.",
         ref="DESIGN.md §3.2",
     ),
 }
